@@ -177,7 +177,12 @@ func genLivingCase(prop, tier string, r *rand.Rand) *Case {
 	repl := map[string]string{}
 	placeRepl := map[string]string{}
 	private := privateTokens(people)
+	var privList []string
 	for tok := range private {
+		privList = append(privList, tok)
+	}
+	sort.Strings(privList) // the PRNG must never be drawn in map order
+	for _, tok := range privList {
 		repl[tok] = newTok(r, &nt)
 	}
 	for i, tp := range people {
@@ -186,8 +191,8 @@ func genLivingCase(prop, tier string, r *rand.Rand) *Case {
 		}
 		p2 := g2.People[i]
 		for k := range p2.Names {
-			for old, nw := range repl {
-				p2.Names[k] = strings.ReplaceAll(p2.Names[k], old, nw)
+			for _, old := range privList {
+				p2.Names[k] = strings.ReplaceAll(p2.Names[k], old, repl[old])
 			}
 		}
 		for k := range p2.Events {
